@@ -455,6 +455,35 @@ func Refine(t *rapid.T, v spec.V, dynPos bool) spec.V {
 		return spec.DynamicVal()
 	}
 	u := spec.UnknownOf(v.T)
+	if v.St == spec.Null && rapid.Bool().Draw(t, "nullbounds") {
+		// A null witness is admitted by ANY type-specific refinement that does
+		// not say not-null (bounds constrain the value only if it turns out
+		// not to be null), so the bounds are free: among them exact and huge
+		// collection lengths, which no non-null witness of the generator has.
+		r := &spec.Ref{}
+		switch {
+		case v.T.K == spec.KNumber:
+			lo, hi := spec.NInt(int64(rapid.IntRange(-5, 5).Draw(t, "nlo"))), spec.NInt(int64(rapid.IntRange(6, 12).Draw(t, "nhi")))
+			r.Lo, r.LoInc, r.Hi, r.HiInc = &lo, rapid.Bool().Draw(t, "nloinc"), &hi, rapid.Bool().Draw(t, "nhiinc")
+		case v.T.K == spec.KString:
+			p := rapid.SampledFrom([]string{"a", "https://", "e\u0301"}).Draw(t, "npfx")
+			r.Prefix, r.PrefixFull = &p, true
+		case v.T.IsColl():
+			lo := rapid.SampledFrom([]int{0, 1, 2, 1024, 1025, 4096, 1 << 16, math.MaxInt32, math.MaxInt64 - 1}).Draw(t, "nminlen")
+			hi := lo
+			if rapid.Bool().Draw(t, "nexact") == false {
+				hi = lo + rapid.SampledFrom([]int{1, 2, 1 << 16}).Draw(t, "nspan")
+				if hi < lo {
+					hi = math.MaxInt64
+				}
+			}
+			r.MinLen, r.MaxLen = &lo, &hi
+		}
+		if *r != (spec.Ref{}) {
+			u.Ref = r
+		}
+		return u
+	}
 	if rapid.IntRange(0, 5).Draw(t, "unrefined") == 0 || v.St == spec.Null {
 		return u
 	}
